@@ -709,9 +709,11 @@ class SemanticErrorChecker:
         Returns:
             True if the Counting Loop statement is valid.
         """
+        if not self.check_counting_loop_limit(counting_loop, task):
+            return False
         if counting_loop.parallel:
             if len(counting_loop.statements) == 1 and isinstance(counting_loop.statements[0], TaskCall):
-                return True
+                return self.check_task_call(counting_loop.statements[0], task)
             error_msg = "Only a single task is allowed in a parallel loop statement!"
             self.error_handler.print_error(error_msg, context=counting_loop.context)
             return False
@@ -722,6 +724,22 @@ class SemanticErrorChecker:
                     valid = False
 
             return valid
+
+    def check_counting_loop_limit(self, counting_loop: CountingLoop, task: Task) -> bool:
+        """Checks if a limit given as attribute access refers to a number.
+
+        Returns:
+            True if the limit of the Counting Loop is valid.
+        """
+        limit = counting_loop.limit
+        if isinstance(limit, list):
+            if not self.check_attribute_access(limit, counting_loop.context, task):
+                return False
+            if not self.expression_is_number(limit, task):
+                error_msg = "The limit of a counting loop has to be a number"
+                self.error_handler.print_error(error_msg, context=counting_loop.context)
+                return False
+        return True
 
     def check_conditional_statement(self, condition: Condition, task: Task) -> bool:
         """Calls check methods for the conditional statement.
